@@ -1,6 +1,7 @@
 package main
 
 import (
+	"os/exec"
 	"encoding/json"
 	"flag"
 	"fmt"
@@ -39,6 +40,60 @@ type PropCfg struct {
 	Undecided []string   `json:"undecided_clauses"`
 	Trusted   []string   `json:"trusted_base"`
 	Structural []string  `json:"structural"` // names of structural (static) checks to run
+	Bounded   *BoundedCfg `json:"bounded"`   // bounded stand-in (never counted as proved)
+}
+
+// BoundedCfg: an executable-contract harness injected into a package of /repo
+// with `go test -overlay` (nothing is written to /repo).
+type BoundedCfg struct {
+	Pkg   string `json:"pkg"`   // package directory relative to /repo
+	File  string `json:"file"`  // harness file relative to /verif
+	Run   string `json:"run"`   // test name
+	Bound string `json:"bound"` // the stated bound
+}
+
+type boundedResult struct {
+	OK     map[string]int
+	Fails  []string
+	Output string
+	Err    string
+}
+
+func runBounded(b *BoundedCfg) boundedResult {
+	res := boundedResult{OK: map[string]int{}}
+	ov, err := os.CreateTemp("", "govc-ov-*.json")
+	if err != nil {
+		res.Err = err.Error()
+		return res
+	}
+	defer os.Remove(ov.Name())
+	dst := filepath.Join(repoDir, b.Pkg, "zz_verif_bounded_test.go")
+	fmt.Fprintf(ov, `{"Replace":{%q:%q}}`, dst, filepath.Join(verifDir, b.File))
+	ov.Close()
+	cmd := exec.Command("go", "test", "-overlay", ov.Name(), "-vet=off", "-count=1", "-timeout", "900s", "-v", "-run", "^"+b.Run+"$", "./"+b.Pkg)
+	cmd.Dir = repoDir
+	out, err := cmd.CombinedOutput()
+	res.Output = string(out)
+	for _, ln := range strings.Split(res.Output, "\n") {
+		ln = strings.TrimSpace(ln)
+		if strings.HasPrefix(ln, "BOUNDED-OK ") {
+			f := strings.Fields(ln)
+			n := 0
+			if len(f) >= 3 {
+				fmt.Sscanf(strings.TrimPrefix(f[2], "cases="), "%d", &n)
+			}
+			res.OK[f[1]] = n
+		} else if strings.HasPrefix(ln, "BOUNDED-FAIL ") {
+			res.Fails = append(res.Fails, strings.TrimPrefix(ln, "BOUNDED-FAIL "))
+		}
+	}
+	if err != nil && len(res.Fails) == 0 {
+		res.Err = "bounded harness did not run to completion: " + err.Error() + "\n" + clip(res.Output, 2000)
+	}
+	if err == nil && len(res.OK) == 0 {
+		res.Err = "bounded harness produced no result lines"
+	}
+	return res
 }
 
 type KnownFinding struct {
@@ -486,6 +541,25 @@ func cmdCheck(args []string) int {
 		fmt.Printf("FAILED-OBLIGATION %s\n", p)
 		fmt.Printf("VIOLATION property=%s replay=%s no-failing-input-found\n", id, path)
 	}
+	var bres *boundedResult
+	if cfg.Bounded != nil {
+		r := runBounded(cfg.Bounded)
+		bres = &r
+		for i, f := range r.Fails {
+			violations++
+			path := filepath.Join(replayDir, fmt.Sprintf("bounded-%d.txt", i))
+			os.WriteFile(path, []byte("bounded check (executable contract over an enumerated domain): failing input\n"+f+"\nre-run: cd /repo && go test -overlay <overlay mapping "+cfg.Bounded.Pkg+"/zz_verif_bounded_test.go to /verif/"+cfg.Bounded.File+"> -vet=off -run "+cfg.Bounded.Run+" ./"+cfg.Bounded.Pkg+"\n"), 0o644)
+			fmt.Printf("FAILED-BOUNDED %s\n", clip(f, 300))
+			fmt.Printf("VIOLATION property=%s replay=%s\n", id, path)
+		}
+		if r.Err != "" {
+			violations++
+			path := filepath.Join(replayDir, "bounded-error.txt")
+			os.WriteFile(path, []byte(r.Err+"\n"), 0o644)
+			fmt.Printf("FAILED-BOUNDED %s\n", clip(r.Err, 300))
+			fmt.Printf("VIOLATION property=%s replay=%s no-failing-input-found\n", id, path)
+		}
+	}
 	if nObl == 0 {
 		violations++
 		fmt.Printf("VIOLATION property=%s replay=%s no-failing-input-found\n", id, filepath.Join(replayDir, "no-obligations.txt"))
@@ -554,6 +628,34 @@ func cmdCheck(args []string) int {
 		"assumptions": assumptions,
 		"wall_s":      round2(time.Since(start).Seconds()),
 		"violations":  violations,
+	}
+	if bres != nil {
+		// a property with a bounded stand-in is NOT a proof-level claim
+		total := 0
+		var fnames []string
+		for f, n := range bres.OK {
+			total += n
+			fnames = append(fnames, fmt.Sprintf("%s: %d cases", f, n))
+		}
+		sort.Strings(fnames)
+		cov := ev["coverage"].(map[string]any)
+		ev["level"] = "exploration"
+		cov["evaluations"] = total
+		cov["distinct_nontrivial"] = total
+		cov["rule"] = "bounded stand-in (NOT proof): " + cfg.Bounded.Bound + "; each case is a distinct input tuple of the enumeration (no duplicates by construction); the deductive obligations listed under obligations/discharged cover only the functions named in functions_proved"
+		cov["exhaustive"] = len(bres.Fails) == 0 && bres.Err == ""
+		cov["bounded_functions"] = fnames
+		cov["bounded_failures"] = bres.Fails
+		var bs []any
+		for _, f := range fnames {
+			bs = append(bs, "bounded: "+f)
+		}
+		if sm, ok := cov["samples"].([]map[string]any); ok {
+			for _, x := range sm {
+				bs = append(bs, x)
+			}
+		}
+		cov["samples"] = bs
 	}
 	os.MkdirAll(filepath.Join(verifDir, "evidence"), 0o755)
 	eb, _ := json.MarshalIndent(ev, "", " ")
